@@ -15,7 +15,7 @@ from typing import Any, Callable, Optional
 
 from .. import common, fakes, lifecycle, loop as ctl
 
-ALPHABET = ['start', 'run', 'rac', 'rcw', 'reset - - - -', 'reset 7 - - -', 'close', 'sig kill', 'cmd', 'prompt', 'exit 5', 'exit -', 'pexit 5', 'xreset 5', 'xclose -', 'kclose 5 1', 'kclose - 4', 'exitx 5', 'reg2', 'unreg2']
+ALPHABET = ['start', 'run', 'rac', 'rcw', 'reset - - - -', 'reset 7 - - -', 'close', 'sig kill', 'cmd', 'prompt', 'exit 5', 'exit -', 'pexit 5', 'xreset 5', 'xclose -', 'kclose 5 1', 'kclose - 4', 'exitx 5', 'reg2', 'unreg2', 'exit +', 'reset 9 - - -']
 LIFECYCLE = ('start', 'run', 'rac', 'rcw', 'reset', 'close')
 EDGES = {('created', 'initialized'), ('initialized', 'running'), ('running', 'finished'), ('initialized', 'initialized'),
          ('finished', 'initialized'), ('created', 'closed'), ('initialized', 'closed'), ('running', 'closed'), ('finished', 'closed')}
@@ -72,7 +72,7 @@ def gen_serial(chk: common.Check, exhaustive_len: int, nrand: int) -> list[tuple
                 ops.append('prompt')
             else:
                 ops.append(rng.choice(['exit 5', 'exit -', 'exit 0', 'pexit 3', 'pexit -', 'xreset 1', 'xreset -', 'xclose 2',
-                                       f'kclose 3 {rng.randint(0, 14)}', f'kclose - {rng.randint(0, 14)}', 'exitx 4', 'exitx -', 'reg2', 'unreg2', 'reg2']))
+                                       f'kclose 3 {rng.randint(0, 14)}', f'kclose - {rng.randint(0, 14)}', 'exitx 4', 'exitx -', 'reg2', 'unreg2', 'reg2', 'exit +', 'reset 9 - - -']))
         if rng.random() < 0.8 and ops[0] != 'start':
             ops.insert(0, 'start')
         scen.append((init, ops))
